@@ -1,6 +1,7 @@
 """C01 -- pixel access through images and views never leaves the image's storage (DESIGN.md section 5, C01)"""
 import json, concurrent.futures
-import vlib, C01_syms
+import os, subprocess
+import vlib, C01_syms, C02_syms, C03_syms
 
 # kind -> (harness group, has caller-buffer op)
 KINDS = {"g8": (1, True), "rgb8": (1, True), "bgr8": (1, False), "rgba8": (2, False), "rgb16": (2, True), "dev5": (2, False),
@@ -28,6 +29,19 @@ def rand_xforms(r, w, h, depth):
         else: t = c
         ts.append(t); w, h = xf_dims(t, w, h)
     return "/".join(ts) if ts else "-"
+
+# homogeneous byte-addressed kinds (they have nth_channel_view / kth_channel_view): kind -> number of channels
+CHANS = {"g8": 1, "rgb8": 3, "bgr8": 3, "rgba8": 4, "rgb16": 3, "dev5": 5, "rgb32f": 3, "pl8": 3, "pl16c": 4}
+STEPPING = ["L", "I", "R", "C", "T", "S2,1", "S1,2"]          # transformations after which the x-iterator is a step iterator
+
+def with_channel(r, kind, xf, nch=None):
+    """insert one channel view (N<n> or K<k>) at a random position of a '/'-separated transformation list"""
+    nch = nch or CHANS[kind]
+    ts = [] if xf == "-" else xf.split("/")
+    n = r.range(0, nch - 1)
+    tok = ("K%d" % min(n, 2)) if r.chance(1, 3) else ("N%d" % n)
+    ts.insert(r.range(0, len(ts)), tok)
+    return "/".join(ts)
 
 def pick_align(r, kind, pool=ALIGNS):
     a = r.choice(pool)
@@ -70,7 +84,19 @@ def gen_ops(ctx):
             fw, fh = (W2, H2) if ctor == "r" else (W, H)
             # no transformations of images without storage: the factories would do pointer arithmetic on a null pointer
             xf = rand_xforms(r, fw, fh, r.range(0, 6 if th else 3)) if fw > 0 and fh > 0 and ctor != "a" else "-"
+            if kind in CHANS and fw > 0 and fh > 0 and ctor != "a" and r.chance(1, 3): xf = with_channel(r, kind, xf)
             ops.append(line(W, H, A, mode, R, ctor, W2, H2, A2, xf))
+        # channel views on top of step views (and step views on top of channel views): every stepping transformation x every channel,
+        # allocation ending at the guard page
+        if kind in CHANS:
+            for (W, H) in ((5, 4), (1, 3), (4, 1), (3, 3)) + (((7, 2), (2, 9)) if th else ()):
+                for t in STEPPING + ["U", "B1,0,%d,%d" % (W - 1, H), "-"]:
+                    for n in range(CHANS[kind]):
+                        A = pick_align(r, kind, [0, 0, 4, 16])
+                        if t == "-": ops.append(line(W, H, A, 1, 0, "d", 0, 0, 0, "N%d" % n)); continue
+                        ops.append(line(W, H, A, 1, 0, "d", 0, 0, 0, "%s/N%d" % (t, n)))
+                        ops.append(line(W, H, A, r.choice([0, 1]), res(A), "d", 0, 0, 0, "N%d/%s" % (n, t)))
+                        if n < 3: ops.append(line(W, H, A, 1, 0, "f", 0, 0, 0, "%s/K%d/%s" % (t, n, r.choice(STEPPING))))
         # sequences of recreate calls (all four overloads in turn), biased towards calls that keep the storage
         for _ in range(6000 // len(KINDS) if th else 600 // len(KINDS)):
             W, H = r.range(1, N), r.range(1, N)
@@ -93,12 +119,21 @@ def gen_ops(ctx):
                 for H in range(0, 5):
                     for PAD in (0, g, 3 * g):
                         for mode in (0, 1): ops.append("buf %s %d %d %d %d" % (kind, W, H, PAD, mode))
+    # caller-supplied planar buffers of exactly 3*H*rowbytes: plain, transformed, and with channel views on top of step views
+    for kind, g in (("pl8", 1), ("pl16", 2)):
+        for (W, H) in [(w, h) for w in range(0, 6) for h in range(0, 5)]:
+            for PAD in (0, g, 3 * g):
+                ops.append("pbuf %s %d %d %d %d -" % (kind, W, H, PAD, r.choice([0, 1])))
+                if W > 0 and H > 0:
+                    for t in STEPPING:
+                        ops.append("pbuf %s %d %d %d 1 %s/N%d" % (kind, W, H, PAD, t, r.range(0, 2)))
+                    ops.append("pbuf %s %d %d %d %d %s" % (kind, W, H, PAD, r.choice([0, 1]), with_channel(r, kind, rand_xforms(r, W, H, r.range(1, 3)), 3)))
     # the witness of the fixed finding: 2-2-2 bit-aligned, 1x1 .. 5x1 / 3x3
     for (W, H) in ((1, 1), (2, 2), (3, 3), (4, 1), (5, 1)):
         ops.append("img b6 %d %d 0 1 0 d 0 0 0 -" % (W, H))
     return ops
 
-def group_of(op): return KINDS[op.split()[1]][0]
+def group_of(op): return 4 if op.startswith("pbuf") else KINDS[op.split()[1]][0]
 def nontrivial(op):
     w = op.split()
     return int(w[2]) * int(w[3]) > 0
@@ -111,8 +146,29 @@ ASSUME = [
     "allocate_and_copy = allocate_ + uninitialized_copy_pixels and swap(tmp) are hand-modelled (the assigned-to image becomes the temporary); tied by the correspondence only",
 ]
 
+def regen_dependency(ctx, prop, syms_mod):
+    """C01's derived-view / channel-view / navigation theorems are stated over Gen/C02.lean and Gen/C03.lean too: re-translate them from the
+       tree under test in the same run, so that a change of those kernels breaks C01's obligations here (Props.C01 imports Props.C02 and Props.C03)."""
+    import cxx2lean
+    rel = "GilVerif/Gen/%s.lean" % prop
+    out = os.path.join(ctx.lean, rel)
+    ok, errs, changed = cxx2lean.generate(syms_mod.NAMESPACE, syms_mod.SYMS, ctx.include, out)
+    ts = ctx.cov.get("translator_symbols") or {"total": 0, "found": 0}
+    ctx.cov["translator_symbols"] = {"total": ts["total"] + len(syms_mod.SYMS), "found": ts["found"] + len(syms_mod.SYMS) - len(errs)}
+    if not ok:
+        for name, err in errs:
+            ctx.broken.append(("translator", "%s.%s" % (prop, name), err)); ctx.log("translator: cannot translate %s.%s: %s" % (prop, name, err))
+        r = subprocess.run(["git", "-C", vlib.VERIF, "show", "HEAD:lean/" + rel], capture_output=True)
+        if r.returncode == 0:
+            with open(out, "wb") as f: f.write(r.stdout)
+    elif changed:
+        ctx.log("translator: %s regenerated (differs from the previous generated file)" % rel)
+        ctx.notes.append("generated file %s changed on this run" % rel)
+
 def run(ctx, ops=None):
     vlib.regen(ctx, C01_syms.NAMESPACE, C01_syms.SYMS)
+    regen_dependency(ctx, "C02", C02_syms)
+    regen_dependency(ctx, "C03", C03_syms)
     obligations, discharged = vlib.standard_proof_steps(ctx)
     with concurrent.futures.ThreadPoolExecutor(len(GROUPS)) as ex:
         futs = {g: ex.submit(vlib.compile_harness, ctx, "harness/C01/main.cpp", "C01_g%d" % g, (), (), True, "-O1", ["KGROUP=%d" % g]) for g in GROUPS}
@@ -134,14 +190,17 @@ def run(ctx, ops=None):
         distinct = len({o for o in ops if nontrivial(o)})
         dist = {}
         for o in ops:
-            k = o.split()[7] if o.startswith("img") else "buf"
+            k = o.split()[7] if o.startswith("img") else o.split()[0]
+            if o.startswith("img") and ("N" in o.split()[11] or "K" in o.split()[11]): k += "+chan"
             dist[k] = dist.get(k, 0) + 1
         ctx.cov["input_distribution"] = dist
     return vlib.finish(ctx, "proof", obligations, discharged,
         rule="op lines over 15 pixel organisations (interleaved 1/3/4/5/6/12-byte, packed 565, planar rgb8 / cmyk16, bit-aligned 1/2/4/6/12 bits): "
              "`img` = image constructed / filled / copied / assigned / recreated with every shape 0..9 (0..40 thorough) x 14 alignments x allocator address residues, "
-             "allocation placed so that it ends at (or starts after) a guard page, every pixel of the image and of a random derived view read and written through "
-             "view(x,y), row_begin, begin()[i], xy_at and the pixel algorithms; `buf` = interleaved_view over caller buffers of exactly h*rowbytes; non-trivial = non-empty image",
+             "allocation placed so that it ends at (or starts after) a guard page, every pixel of the image and of a random derived view (flip / rotate / transpose / subimage / subsample, "
+             "and for homogeneous kinds nth_channel_view / kth_channel_view anywhere in the list: on top of every stepping transformation x every channel) read and written through "
+             "view(x,y), row_begin, begin()[i], xy_at and the pixel algorithms; `buf` = interleaved_view over caller buffers of exactly h*rowbytes; "
+             "`pbuf` = planar_rgb_view over one caller buffer of exactly 3*h*rowbytes with derived views incl. channel views; non-trivial = non-empty image",
         samples=samples, distinct_nontrivial=distinct, assumptions=ASSUME, trusted_base=vlib.TRUSTED_BASE,
         extra={"input_distribution": ctx.cov.get("input_distribution", {}), "organisations": sorted(KINDS)})
 
